@@ -20,7 +20,7 @@ FLOAT_FULL = re.compile(r"^[ \t\n\v\f\r]*([+-]?(?:%s|%s|%s))[ \t\n\v\f\r]*$" % (
 FLOAT_PREFIX = re.compile(r"^[ \t\n\v\f\r]*([+-]?(?:%s|%s|%s))" % (HEX, DEC, SPECIAL))
 # spellings on which scanf and this glue might disagree: nan(...), a number followed by a letter that could
 # continue it ("1e", "0x", "1e+", "infin"), digit-group or locale issues
-RISKY = re.compile(r"[nN][aA][nN]\(|\d[eE][+-]?$|\d[eE][+-]?[^\d]|0[xX]$|0[xX][^0-9a-fA-F.]|[pP][+-]?$|[iI][nN][fF][iI]")
+RISKY = re.compile(r"[nN][aA][nN]\(|[\d.][eE](?![+-]?\d)|0[xX](?![0-9a-fA-F.])|0[xX][0-9a-fA-F.]*[pP](?![+-]?\d)|[iI][nN][fF][iI]")
 
 
 def cstr(s):
@@ -115,7 +115,7 @@ def type_of(text):
     return u if u in L.TYPES else None
 
 
-KEY_OK = re.compile(r"^[A-Za-z_][A-Za-z0-9_-]*$")
+KEY_OK = re.compile(u"^[A-Za-z_\u0080-\U0010ffff][A-Za-z0-9_\u0080-\U0010ffff-]*$")
 
 
 def vline(first):
@@ -207,8 +207,10 @@ def tie(ctx, cases, trees, outcome, violate):
         try:
             if has:
                 emit(doc["root"], lines, False, skipped)
-        except Unsure:
+        except Unsure as e:
             skipped["unsure"] += 1
+            k = "unsure:" + str(e).split(" ")[0]
+            skipped[k] = skipped.get(k, 0) + 1
             continue
         inp.append("DOC %s %d" % (v, 1 if has else 0))
         inp.extend(lines)
